@@ -1,6 +1,8 @@
 #!/bin/bash
 # stops every verification process started from this sandbox session
-for p in $(ps -eo pid,args | grep -E "python3 (tools/probe|run_check)" | grep -v grep | awk '{print $1}'); do kill $p 2>/dev/null; done
+for p in $(ps -eo pid,comm,args | awk '$2 ~ /^python3/ && ($0 ~ /tools\/probe/ || $0 ~ /run_check/) {print $1}'); do kill $p 2>/dev/null; done
 pkill -x timeout; pkill -x cbmc; pkill -x cargo-kani; pkill -x kani-driver; pkill -x kani-compiler; pkill -x goto-instrument
 sleep 1
+pkill -9 -x cbmc
 rm -rf /var/tmp/hs-verif.* /var/tmp/hs-replay.*
+exit 0
